@@ -261,3 +261,43 @@ extern "C" void h_clone_parts()
     vcheck(0, "witness");
 #endif
 }
+
+// equivalences of a cloned model: minimal skeleton (two components, two variables, one equivalence with ids)
+extern "C" void h_clone_equivalence()
+{
+    auto m = Model::create("m");
+    auto c1 = Component::create("a");
+    auto c2 = Component::create("b");
+    auto v1 = Variable::create("v");
+    auto v2 = Variable::create("w");
+    c1->addVariable(v1);
+    c2->addVariable(v2);
+    m->addComponent(c1);
+    m->addComponent(c2);
+    std::string mid;
+    std::string cid;
+    int k1 = vin(0, 2);
+    if (k1 > 0) mid.push_back((char)('k' + k1 - 1));
+    int k2 = vin(0, 2);
+    if (k2 > 0) cid.push_back((char)('p' + k2 - 1));
+    Variable::addEquivalence(v1, v2, mid, cid);
+    ModelPtr k = m->clone();
+    NO_UNCAUGHT();
+    vcheck(k != nullptr && k->componentCount() == 2, "clone preserves the components");
+    if (k == nullptr || k->componentCount() != 2) return;
+    VariablePtr kv1 = k->component(0)->variable(0);
+    VariablePtr kv2 = k->component(1)->variable(0);
+    vcheck(kv1 != nullptr && kv2 != nullptr && kv1 != v1 && kv2 != v2, "clone has its own variables");
+    if (kv1 == nullptr || kv2 == nullptr) return;
+    vcheck(kv1->equivalentVariableCount() == 1 && kv2->equivalentVariableCount() == 1, "clone preserves variable equivalences");
+    if (kv1->equivalentVariableCount() == 1) {
+        vcheck(kv1->equivalentVariable(0) == kv2, "equivalences of a cloned model connect the clone's own variables");
+        vcheck(Variable::equivalenceMappingId(kv1, kv2) == mid, "clone preserves the equivalence mapping id");
+        vcheck(Variable::equivalenceConnectionId(kv1, kv2) == cid, "clone preserves the equivalence connection id");
+    }
+    vcheck(v1->equivalentVariableCount() == 1 && v1->equivalentVariable(0) == v2, "cloning leaves the original's equivalences alone");
+    NO_UNCAUGHT();
+#ifdef WITNESS
+    vcheck(0, "witness");
+#endif
+}
